@@ -418,6 +418,20 @@ Proof.
     rewrite (is_func_rel _ _ _ Hw). destruct (is_func w' 2); [|intros _; rr; constructor].
     inv Hv; try (intros _; rr; constructor). intros D.
     eapply wrel_bind; [exact D|intros; apply merge_app_w; auto|intros; rr; repeat constructor; auto]. }
+  destruct (str_eqb mname n_visit).
+  { destruct H as [|v v' r r' Hv Hr]; [intros _; rr; constructor|].
+    destruct Hr as [|w w' r r' Hw Hr2]; [intros _; rr; constructor|].
+    destruct Hr2; [|intros _; rr; constructor].
+    rewrite (is_func_rel _ _ _ Hw). destruct (is_func w' 2); [|intros _; rr; constructor].
+    apply fold_app_w; auto. }
+  destruct (str_eqb mname n_eval). { rr. constructor. constructor. exact Hl. }
+  destruct (str_eqb mname n_set).
+  { rr. destruct H as [|v v' r r' Hv Hr]; [constructor|].
+    destruct Hr as [|w w' r r' Hw Hr2]; [inv Hv; constructor|].
+    destruct Hr2; inv Hv; try (cbn; constructor; fail).
+    rewrite <- (Forall2_length' _ _ _ Hl).
+    destruct ((z <? 0) || (Z.of_nat (length l) <=? z)); constructor. constructor.
+    apply Forall2_app'; [apply Forall2_firstn; auto|]. constructor; [auto|apply Forall2_skipn; auto]. }
   rr. constructor.
 Qed.
 
@@ -437,7 +451,7 @@ Proof.
   - rr. constructor.
   - apply run_list_method_w; auto.
   - rr. apply run_map_method_rel; auto.
-  - rr. constructor.
+  - rr. destruct (str_eqb mname n_args); repeat constructor.
 Qed.
 
 End WithApps.
